@@ -280,8 +280,10 @@ def run(ctx) -> None:
 
     def is_conclusive_predicate(fn) -> bool:
         txt = {norm(n) for n in ast.walk(fn.node) if isinstance(n, ast.Attribute)}
-        return all(f"{enum_cls}.{m}" in txt for m in ("Completed", "Failed", "Cancelled")) and any(
-            isinstance(c, ast.Call) and call_attr(c) in ("get_states_by_instance",) for c in ast.walk(fn.node))
+        # examines the states recorded for the given instance id for all three conclusive members
+        ps = [a.arg for a in fn.node.args.args if a.arg not in ("self", "cls")]
+        uses_param = bool(ps) and any(isinstance(n, ast.Name) and n.id == ps[0] for n in ast.walk(fn.node))
+        return uses_param and all(f"{enum_cls}.{m}" in txt for m in ("Completed", "Failed", "Cancelled"))
     for mname in ("cancel_instruction", "force_instruction"):
         f = cmc.methods.get(mname)
         if f is None:
